@@ -154,7 +154,7 @@ func run(t interface{ Fatalf(string, ...any) }, c *Case) {
 func drawCase(t *rapid.T, o gen.DataOpts, nq int) *Case {
 	ds := gen.Dataset(t, o)
 	d := model.NewData(ds.Rows())
-	pool := gen.NewLeafPool(d)
+	pool := gen.NewLeafPool(d).AllowEmptyName()
 	c := &Case{Data: *ds}
 	k := rapid.IntRange(1, nq).Draw(t, "nq")
 	for i := 0; i < k; i++ {
@@ -197,6 +197,15 @@ func drawCase(t *rapid.T, o gen.DataOpts, nq int) *Case {
 				e = model.And(e, taut)
 			}
 			c.Queries = append(c.Queries, Q{Expr: e, GroupBy: []string{gc}}, Q{Expr: model.Eq(gc, "no-such-value~"), GroupBy: []string{gc, pool.Cols[0]}})
+		}
+		// an unknown column listed AFTER the point where no group is left (the
+		// expression matches nothing, or asks for an absent value of the first
+		// listed column): the error is due all the same
+		if rapid.IntRange(0, 3).Draw(t, "drygroups") == 0 {
+			ec := pool.Cols[rapid.IntRange(0, len(pool.Cols)-1).Draw(t, "drycol")]
+			unk := pool.Unknown[rapid.IntRange(0, len(pool.Unknown)-1).Draw(t, "dryunk")]
+			none := model.Eq(ec, "no-such-value~")
+			c.Queries = append(c.Queries, Q{Expr: none, GroupBy: []string{ec, unk}}, Q{Expr: model.And(none, taut), GroupBy: []string{pool.Cols[0], ec, unk, ec}}, Q{Expr: none, GroupBy: []string{unk}})
 		}
 		if u := ds.UniqueCol(); u != "" {
 			best := pool.Cols[0]
